@@ -2,8 +2,6 @@ package main
 
 import (
 	"fmt"
-	"os"
-	"strings"
 
 	"github.com/synnaxlabs/cesium"
 	"github.com/synnaxlabs/cesium/zverif/cz"
@@ -11,26 +9,26 @@ import (
 )
 
 func main() {
-	w, err := cz.New(cz.Config{GridN: 5, FileCap: 10, AutoCommit: true, Channels: []cesium.ChannelKey{cz.T, cz.U8, cz.I64}, Persist: cesium.AlwaysIndexPersistOnAutoCommit})
+	w, err := cz.New(cz.Config{GridN: 5, AutoCommit: true, Channels: []cesium.ChannelKey{cz.T, cz.I64}})
 	if err != nil {
 		panic(err)
 	}
-	for _, op := range strings.Split(os.Args[1], ";") {
-		o, err := w.Apply(op)
-		fmt.Println(op, "->", o, err)
+	for _, op := range []string{"open 0 all 0 0", "write 0 2", "write 0 2", "write 0 1", "close 0"} {
+		w.Apply(op)
 	}
-	bs := cz.Bounds(w.Grid)
-	for _, b := range bs[1:] {
-		fr, err := w.DB.Read(cz.Ctx, telem.TimeRange{Start: 0, End: b}, w.Cfg.Channels...)
-		fmt.Printf("[0,%d) err=%v ", int64(b), err)
-		for _, k := range w.Cfg.Channels {
-			var got []string
-			for _, s := range fr.Get(k).Series {
-				got = append(got, fmt.Sprint(cz.Decode(k, s), s.TimeRange.Start, s.TimeRange.End, s.Alignment))
-			}
-			fmt.Printf(" %d:%v", k, got)
+	it, err := w.DB.OpenIterator(cesium.IteratorConfig{Channels: []cesium.ChannelKey{cz.I64}, Bounds: telem.TimeRange{Start: w.Grid[0] + 1, End: telem.TimeStampMax}, AutoChunkSize: 2})
+	if err != nil {
+		panic(err)
+	}
+	fmt.Println("sf", it.SeekFirst())
+	for i := 0; i < 5; i++ {
+		ok := it.Next(cesium.AutoSpan)
+		var got []string
+		for _, s := range it.Value().Get(cz.I64).Series {
+			got = append(got, fmt.Sprint(cz.Decode(cz.I64, s), s.TimeRange))
 		}
-		fmt.Println()
+		fmt.Println("next(auto)", ok, got, it.Error())
 	}
+	it.Close()
 	w.Close()
 }
